@@ -32,6 +32,7 @@
 #include <algorithm>
 #include <cmath>
 #include <filesystem>
+#include <functional>
 #include <iostream>
 #include <memory>
 #include <set>
@@ -125,6 +126,9 @@ double randFac(vh::Rng& rng) {
 
 double randRate(vh::Rng& rng) {
     if (rng.coin(1, 12)) return 0.0;
+    // a nearly watered-out / very low rate well: the smallest numbers the deck format here can carry
+    // (0.0001 ... 0.0100 deck units, i.e. 1e-9 m3/s and below in every unit system)
+    if (rng.coin(1, 6)) return (1 + rng.below(100)) / 10000.0;
     return std::strtod(num(rng.unit() * (rng.coin() ? 100.0 : 20000.0)).c_str(), nullptr);
 }
 
@@ -261,7 +265,13 @@ struct Real {
 
 data::Wells makeWellData(vh::Rng& rng, const Case& c, int simStep, vh::Sink* sink) {
     data::Wells out;
+    // small but non-zero rates (SI, m3/s): 1e-9 ... 1e-14, far below any "looks like zero" threshold but
+    // perfectly good numbers (core floods in LAB units, nearly dead wells).  Either every well of the
+    // evaluation (so that group and field denominators are small too) or single wells / single phases.
+    const bool allTiny = rng.coin(1, 5);
     for (const auto& w : c.wells) {
+        const int tinyMode = allTiny ? rng.range(0, 1) : rng.range(0, 9);   // 0 all components, 1 liquids only, 2 gas only, else none
+        const double tinyScale = std::pow(10.0, -rng.range(9, 14));
         if (w.firstStep > simStep) { if (rng.coin(1, 6)) {} else continue; }   // sometimes results for a well the schedule does not know yet
         const int r = rng.range(0, 19);
         if (r == 0) { if (sink) sink->count("well.absent"); continue; }
@@ -272,6 +282,11 @@ data::Wells makeWellData(vh::Rng& rng, const Case& c, int simStep, vh::Sink* sin
         for (const auto& pr : kRates) {
             if (rng.coin(1, 10)) continue;                    // component not set
             double mag = rng.unit() * (rng.coin() ? 1e-3 : 1.0);
+            const bool liquid = pr.second == rt::wat || pr.second == rt::oil;
+            if (tinyMode == 0 || (tinyMode == 1 && liquid) || (tinyMode == 2 && pr.second == rt::gas)) {
+                mag = (0.05 + rng.unit()) * tinyScale;
+                if (sink) sink->count("rate.tiny");
+            }
             if (rng.coin(1, 15)) mag = 0.0;
             double sign = w.producer ? -1.0 : 1.0;
             if (rng.coin(1, 8)) sign = -sign;                 // cross flow
@@ -464,6 +479,19 @@ void civilFromDays(long z, long& y, unsigned& m, unsigned& d) {
     y += (m <= 2);
 }
 
+// purely relative comparison (ratios range over many decades; no absolute slack)
+bool closeRel(double a, double b, double rel) { return std::fabs(a - b) <= rel * std::max(std::fabs(a), std::fabs(b)); }
+
+// ratio vectors and their constituents (suffixes; W, G or F is prepended): value = num / (sum of den),
+// 0 when the denominator is exactly 0
+struct RatioDef { const char* ratio; const char* num; std::vector<const char*> den; bool denIsGas; };
+const std::vector<RatioDef> kRatios = {
+    {"WCT", "WPR", {"WPR", "OPR"}, false}, {"GOR", "GPR", {"OPR"}, false}, {"GLR", "GPR", {"WPR", "OPR"}, false},
+    {"OGR", "OPR", {"GPR"}, true}, {"WGR", "WPR", {"GPR"}, true},
+    {"WCTH", "WPRH", {"WPRH", "OPRH"}, false}, {"GORH", "GPRH", {"OPRH"}, false}, {"GLRH", "GPRH", {"WPRH", "OPRH"}, false},
+    {"WGRH", "WPRH", {"GPRH"}, true},
+};
+
 struct UnitConst { double liq, gas, resv, timeSec; };   // deck value = SI value * factor ; time: seconds per deck time unit
 UnitConst unitConst(const std::string& u) {
     const double day = 86400.0, stb = 0.158987294928, mscf = 28.316846592;
@@ -482,6 +510,29 @@ int runProp(uint64_t seed, bool thorough, const std::string& outdir) {
     long noted_checked = 0, noted_dev = 0;
     auto chk = [&](bool ok, const std::string& key, const std::string& detail) {
         if (ok) log.ok(); else { log.ok(); log.fail(key, detail); }
+    };
+    std::map<std::string, long> ratioStats;
+    auto g17 = [](double v) { char b[40]; std::snprintf(b, sizeof b, "%.17g", v); return std::string(b); };
+    // every ratio vector of one node from the constituents reported in the same SummaryState
+    auto ratios = [&](char cat, const UnitConst& uc, const std::string& units, const std::function<bool(const std::string&)>& has,
+                      const std::function<double(const std::string&)>& get, const std::string& where) {
+        for (const auto& rd : kRatios) {
+            const std::string rk = std::string(1, cat) + rd.ratio, nk = std::string(1, cat) + rd.num;
+            bool all = has(rk) && has(nk);
+            for (const char* d : rd.den) all = all && has(std::string(1, cat) + d);
+            if (!all) { ++ratioStats["not_available." + rk]; continue; }
+            double den = 0.0; std::string dk;
+            for (const char* d : rd.den) { den += get(std::string(1, cat) + d); dk += std::string(dk.empty() ? "" : "+") + cat + d; }
+            const double nume = get(nk), got = get(rk);
+            const double expect = den == 0.0 ? 0.0 : nume / den;
+            const double denSI = den / (rd.denIsGas ? uc.gas : uc.liq);
+            chk(closeRel(got, expect, 1e-12), "ratio." + rk,
+                where + " " + rk + "=" + g17(got) + " but " + nk + "/(" + dk + ") = " + g17(nume) + "/" + g17(den) + " = " + g17(expect) +
+                " (denominator in SI " + g17(denSI) + " m3/s)");
+            ++ratioStats[std::string("checked.") + cat];
+            if (den != 0.0 && denSI < 1e-8) { ++ratioStats["small_nonzero_denominator." + units]; ++ratioStats[std::string("small_nonzero_denominator.level.") + cat]; }
+            if (den == 0.0) ++ratioStats["zero_denominator"];
+        }
     };
     for (int ci = 0; ci < ncases; ++ci) {
         Case c = makeCase(rng, keys, thorough);
@@ -571,6 +622,8 @@ int runProp(uint64_t seed, bool thorough, const std::string& outdir) {
                     chk(close(W(w.name, "WGOR"), W(w.name, "WOPR") == 0 ? 0.0 : W(w.name, "WGPR") / W(w.name, "WOPR"), 1e-12), "derived.WGOR", a);
                     chk(close(W(w.name, "WGLR"), den == 0 ? 0.0 : W(w.name, "WGPR") / den, 1e-12), "derived.WGLR", a);
                 }
+                ratios('W', uc, c.units, [&](const std::string& k) { return st.has_well_var(w.name, k); },
+                       [&](const std::string& k) { return W(w.name, k); }, a);
                 // shut / absent wells contribute nothing
                 if (!fl)
                     for (const auto& k : keys)
@@ -637,6 +690,8 @@ int runProp(uint64_t seed, bool thorough, const std::string& outdir) {
                     chk(close(G(g.name, "GWCT"), den == 0 ? 0.0 : G(g.name, "GWPR") / den, 1e-12), "derived.GWCT", a);
                     chk(close(G(g.name, "GGOR"), G(g.name, "GOPR") == 0 ? 0.0 : G(g.name, "GGPR") / G(g.name, "GOPR"), 1e-12), "derived.GGOR", a);
                 }
+                ratios('G', uc, c.units, [&](const std::string& k) { return st.has_group_var(g.name, k); },
+                       [&](const std::string& k) { return G(g.name, k); }, a);
                 const double up = groupUp(static_cast<int>(gi));
                 struct TR { const char* t; const char* r; };
                 for (const TR& tr : { TR{"GOPT", "GOPR"}, TR{"GWPT", "GWPR"}, TR{"GGPT", "GGPR"}, TR{"GLPT", "GLPR"}, TR{"GVPT", "GVPR"},
@@ -663,6 +718,7 @@ int runProp(uint64_t seed, bool thorough, const std::string& outdir) {
                 const double den = F("FWPR") + F("FOPR");
                 chk(close(F("FWCT"), den == 0 ? 0.0 : F("FWPR") / den, 1e-12), "derived.FWCT", at);
                 chk(close(F("FGOR"), F("FOPR") == 0 ? 0.0 : F("FGPR") / F("FOPR"), 1e-12), "derived.FGOR", at);
+                ratios('F', uc, c.units, [&](const std::string& k) { return st.has(k); }, [&](const std::string& k) { return F(k); }, at + "/FIELD");
                 struct TR { const char* t; const char* r; };
                 for (const TR& tr : { TR{"FOPT", "FOPR"}, TR{"FWPT", "FWPR"}, TR{"FGPT", "FGPR"}, TR{"FLPT", "FLPR"}, TR{"FVPT", "FVPR"},
                                       TR{"FOIT", "FOIR"}, TR{"FWIT", "FWIR"}, TR{"FGIT", "FGIR"}, TR{"FVIT", "FVIR"}, TR{"FLIT", "FLIR"},
@@ -677,6 +733,9 @@ int runProp(uint64_t seed, bool thorough, const std::string& outdir) {
     }
     std::ofstream ps(outdir + "/prop_stats.json");
     ps << "{\n  \"checked\": " << log.checked << ",\n  \"failed\": " << log.failed << ",\n  \"cases\": " << ncases
+       << ",\n  \"ratio_checks\": {";
+    { bool first = true; for (const auto& kv : ratioStats) { ps << (first ? "" : ", ") << "\"" << kv.first << "\": " << kv.second; first = false; } }
+    ps << "}"
        << ",\n  \"outside_quantifier_brine_energy_totals_checked\": " << noted_checked
        << ",\n  \"outside_quantifier_brine_energy_totals_without_efac\": " << noted_dev << "\n}\n";
     std::error_code ec; std::filesystem::remove(outdir + "/PCASE.SMSPEC", ec);
